@@ -122,6 +122,27 @@ def all_acts():
 
 
 CONDS = all_conds()
+
+
+def order_variants(conds):
+    """the same name lists written in another order: every condition naming >= 2 lists (community HAS / HAS_ANY, rd,
+    match_v4 / match_v6) once reversed and, for 3 names, once rotated by one. The set of lists is unchanged, so whatever
+    a back-end derives from a name list (a united list name, the order of definitions) is exercised in every order."""
+    out = []
+    for c in conds:
+        pos = {"set": 3, "pfx": 2}.get(c[0])
+        if pos is None or len(c[pos]) < 2:
+            continue
+        names = c[pos]
+        for perm in [names[::-1]] + ([names[1:] + names[:1]] if len(names) > 2 else []):
+            v = list(c)
+            v[pos] = perm
+            if v not in conds and v not in out:
+                out.append(v)
+    return out
+
+
+COND_ORDER = order_variants(CONDS)
 ACTS = all_acts()
 
 
@@ -160,11 +181,14 @@ def bound_text(tier):
          "allow, entity variant (OR, literal, 1 member); every single condition and every single action x 8 entity variants "
          "(logic AND/OR x use_regex x 1-2 members; community-dependent elements only beyond the base variant) x results "
          "{allow, deny, next, next_policy, <none>}; statement number None x every single element; empty statement, empty "
-         "policy, no policy" % (len(CONDS), len(ACTS)))
+         "policy, no policy; %d order variants (name lists of >= 2 names reversed, 3 names also rotated) of the multi-list "
+         "conditions, each alone; same entity used twice: every ordered pair of entity-referencing conditions (order variants "
+         "included) that share a list name, as two statements of one policy and as two policies"
+         % (len(CONDS), len(ACTS), len(COND_ORDER)))
     if tier == "quick":
         return q + "; complete"
-    return (q + "; plus: for the other 7 entity variants every one-statement (condition, action) pair with a community-"
-            "dependent element; (base variant) one-statement cross x the 4 other result forms; two-condition statements: all "
+    return (q + "; plus: every order variant x every action; for the other 7 entity variants every one-statement (condition, "
+            "action) pair with a community-dependent element; (base variant) one-statement cross x the 4 other result forms; two-condition statements: all "
             "ordered condition pairs x no action and all unordered pairs x %d actions (one per rule.* method); two-action "
             "statements: all action pairs (unordered, ordered where both are immediate rule.set_* calls) x (none + %d "
             "conditions, one per R.* factory); two-statement policies and two one-statement policies with each statement a "
@@ -679,6 +703,13 @@ def programs(part, evi):
             for a in opt(ACTS):
                 if base or (c is not None and cond_is_comm(c)) or (a is not None and act_is_comm(a)):
                     yield one_policy([stmt(_l(c), _l(a))])
+        for c in COND_ORDER:                                     # order variants: alone (crossed with actions in 1o)
+            if base or cond_is_comm(c):
+                yield one_policy([stmt([c], [])])
+    elif part == "1o":
+        for c in COND_ORDER:
+            for a in ACTS:
+                yield one_policy([stmt([c], [a])])
     elif part == "1r":
         singles = [(c, None) for c in CONDS] + [(None, a) for a in ACTS]
         for c, a in singles:
@@ -724,7 +755,7 @@ def programs(part, evi):
             if c[0] == "aspf":
                 return {("aspf", c[1])}
             return set()
-        ent = [c for c in CONDS if names_of(c)]
+        ent = [c for c in CONDS + COND_ORDER if names_of(c)]
         for c1 in ent:
             for c2 in ent:
                 if c1 is not c2 and names_of(c1) & names_of(c2):
@@ -753,7 +784,7 @@ def blocks(tier, seed):
         for v in range(len(VENDORS)):
             for evi in range(1, len(EVS)):
                 bl += [{"part": "1s", "vendor": v, "ev": evi, "k": k, "n": 2} for k in range(2)]
-            for part, n in (("1sr", 6), ("2c", 12), ("2a", 16), ("2s", 6), ("2p", 6)):
+            for part, n in (("1o", 2), ("1sr", 6), ("2c", 12), ("2a", 14), ("2s", 6), ("2p", 6)):
                 bl += [{"part": part, "vendor": v, "ev": 0, "k": k, "n": n} for k in range(n)]
     return bl
 
